@@ -113,9 +113,10 @@ def allSome : List (Option Val) → Option (List Val)
   | none :: _ => none
   | some v :: r => (allSome r).map (v :: ·)
 
-/-- `reduce_arguments`, given the evaluation of the positional and keyword parts -/
+/-- `reduce_arguments`, given the evaluation of the positional and keyword parts; `expand` is the
+`expand_kwargs` parameter (the `kwargs:` splice applies to calls, not to dictionary literals) -/
 def reduceArgsWith (evalPos : EvalM (List (Option Val))) (evalKws : EvalM (List (Str × Val)))
-    (orderErr : Bool) : EvalM (List Val × List (Str × Val)) := do
+    (orderErr : Bool) (expand : Bool := true) : EvalM (List Val × List (Str × Val)) := do
   if orderErr then fail .invalidArguments
   else
     incDepth
@@ -125,8 +126,10 @@ def reduceArgsWith (evalPos : EvalM (List (Option Val))) (evalKws : EvalM (List 
     | some vs =>
       let kw ← evalKws
       decDepth
-      let kw' ← liftE .expandKwargs (expandKwargs kw)
-      pure (vs, kw')
+      if expand then
+        let kw' ← liftE .expandKwargs (expandKwargs kw)
+        pure (vs, kw')
+      else pure (vs, kw)
 
 /-- what a `foreach` iterates over: one tuple of values per iteration -/
 def iterItems (v : Option Val) (nvars : Nat) : Except ErrK (List (List Val)) :=
@@ -290,7 +293,7 @@ def eval : Node → EvalM (Option Val)
     else do let v ← noRange (.arr vs); pure (some v)
   | .dict ln kw => do
     setLine ln
-    let (_, kws) ← reduceArgsWith (pure []) (evalKw true kw []) false
+    let (_, kws) ← reduceArgsWith (pure []) (evalKw true kw []) false false
     let v ← noRange (.dict kws)
     pure (some v)
   | .and_ ln l r => do
